@@ -1867,7 +1867,7 @@ class Einsum(Array):
                 lengths[i] = length if n is None else assert_equal(length, n)
         try:
             self.shape = tuple(lengths[i] for i in self.out_idx)
-        except KeyError(e):
+        except KeyError as e:
             raise ValueError(f'Output axis {e} is not listed in any of the arguments.')
 
     @cached_property
